@@ -306,7 +306,8 @@ def proxyH : Handler := fun inp impl => do
   let (mHdr, mHost, mSts, mOk) := match out with
     | .forward _ uh sent _ =>
       -- http.Transport / Request.Write send the URL's host when Request.Host is empty
-      (proj (toS sent), (if uh.isEmpty then target else l2s uh), (clientSTS out).map l2s, true)
+      (proj (toS sent), (if uh.isEmpty then target else l2s uh),
+        (clientSTSAfter (if getBoolD inp "interim" then 1 else 0) out).map l2s, true)
     | _ => (([] : SHdrs), "", ([] : List String), false)
   let model := Json.mkObj [("ok", mOk), ("uhost", mHost), ("hdr", hdrsJson mHdr), ("sts", Json.arr (mSts.map Json.str).toArray)]
   let agree := !isPanic && mOk && reached && proj iHdr == mHdr && iHost == mHost && iSts == mSts
@@ -319,7 +320,9 @@ def proxyH : Handler := fun inp impl => do
       (if stsSpec cfg tlsOn (!eqFold (sentFirst wire "Upgrade") "websocket") iSts then [] else ["sts"])
   let u := upgradeClass wire tlsOn
   let cls := if degenerateCfg cfg then "config-collision" else u ++ (if hostClass host != "" then "/host-ipv6" else "") ++
-    (if hostOpt == "" then "" else if hostOpt == "dst" then "/hostopt-dst" else "/hostopt-literal")
+    (if startsWith remote "[" then "/peer-ipv6" else "") ++
+    (if hostOpt == "" then "" else if hostOpt == "dst" then "/hostopt-dst" else "/hostopt-literal") ++
+    (if getBoolD inp "interim" then "/upstream-1xx" else "")
   -- former finding D12d: the client names a header of this property in its Connection header
   let connNames := (sent wire "Connection").flatMap fun v => (splitComma (s2l v)).map fun t => lowerS (l2s (trimBlanks t))
   let namesManaged := connNames.any fun n => n != "" && (managedLower.contains n ||
@@ -488,7 +491,7 @@ def mainH : Handler := fun inp impl => do
     | none => (false, ([] : SHdrs), "", ([] : List String), false)
     | some (.forward k uh sent resp) =>
       (true, proj (toS sent), (if uh.isEmpty then target else l2s uh),
-        (clientSTS (.forward k uh sent resp)).map l2s, true)
+        (clientSTSAfter (if getBoolD inp "interim" then 1 else 0) (.forward k uh sent resp)).map l2s, true)
     | some _ => (true, [], "", [], false)
   let model := Json.mkObj [("started", mStarted), ("ok", mOk), ("uhost", mHost), ("hdr", hdrsJson mHdr),
                            ("sts", Json.arr (mSts.map Json.str).toArray)]
@@ -516,6 +519,8 @@ def mainH : Handler := fun inp impl => do
   let cls := if !started then "refused" else
     (if degenerateCfg sCfg then "config-collision" else upgradeClass wire tlsOn ++
       (if hostOpt == "" then "" else if hostOpt == "dst" then "/hostopt-dst" else "/hostopt-literal")) ++
+    (if startsWith remote "[" then "/peer-ipv6" else "") ++
+    (if getBoolD inp "interim" then "/upstream-1xx" else "") ++
     (if getBoolD inp "h2" then "/h2" else "") ++ (if listener == .httpsTcpSni then "/sni-listener" else "") ++
     (if opts.isEmpty then "/defaults" else
       (if srcs.contains "arg" then "/arg" else "") ++ (if srcs.contains "env" || srcs.contains "envbare" then "/env" else "") ++
